@@ -201,9 +201,15 @@ mod verif_c08_table {
     // ---------------------------------------------------------------- iterators
 
     // iter(): exactly 512 items, item k is the slot at base + 8*k (all 512
-    // checked, k is concrete after unwinding).
+    // checked, k is concrete after unwinding). Also tagged for C10 / C01: clean_up decides "this table is
+    // empty" with `iter().all(is_unused)` and scans with `iter_mut()`; a table whose only entry sits in a slot
+    // the iterator skips would be freed while in use (seed C01-r4m1).
     //@ obligation C08 C08.PageTable_iter.kth_item_is_slot_k
+    //@ obligation C10 C10.PageTable_iter.kth_item_is_slot_k
+    //@ obligation C01 C01.PageTable_iter.kth_item_is_slot_k
     //@ obligation C08 C08.PageTable_iter.yields_512
+    //@ obligation C10 C10.PageTable_iter.yields_512
+    //@ obligation C01 C01.PageTable_iter.yields_512
     #[kani::proof]
     #[kani::unwind(513)]
     fn c08_table_iter_slots() {
@@ -222,7 +228,11 @@ mod verif_c08_table {
     }
 
     //@ obligation C08 C08.PageTable_iter_mut.kth_item_is_slot_k
+    //@ obligation C10 C10.PageTable_iter_mut.kth_item_is_slot_k
+    //@ obligation C01 C01.PageTable_iter_mut.kth_item_is_slot_k
     //@ obligation C08 C08.PageTable_iter_mut.yields_512
+    //@ obligation C10 C10.PageTable_iter_mut.yields_512
+    //@ obligation C01 C01.PageTable_iter_mut.yields_512
     #[kani::proof]
     #[kani::unwind(513)]
     fn c08_table_iter_mut_slots() {
